@@ -4,7 +4,7 @@ ENGINES = [
     {
         "name": "symx",
         "path": "/verif/symx",
-        "serves_properties": ["C03", "C04", "C06", "C07", "C08", "C13", "C16", "C17", "C18"],
+        "serves_properties": ["C03", "C04", "C06", "C07", "C08", "C12", "C13", "C16", "C17", "C18"],
         "kind_free_text": "own symbolic executor: geoh5py's real functions run under CPython with the module-global "
         "`np` (and, for file paths, `h5py`) rebound to z3-backed models; re-execution DFS forks on symbolic "
         "branches; obligations are z3 validity queries; counterexamples are replayed on real numpy/h5py",
@@ -48,7 +48,9 @@ CLAIMED = {
         "vertices, cells, octree cells, layers, prisms, values) are assigned symbolic values and z3 proves, for all of "
         "them, that the last persistence call happens after the value is stored and that a fresh Workspace on the same "
         "file reads the in-memory value; strings, flags, dictionaries and colour/value maps are concrete (evaluated "
-        "directly). Attribute pairs are assigned in both orders.",
+        "directly). Attribute pairs are assigned in both orders; every pair is also assigned in a later session (entity "
+        "re-read from the file first); drillholes and data inside a drillhole group (concatenated storage) are in the table; "
+        "the re-read entity is compared on every mapped attribute and array field, a failing re-open is a failed read-back.",
         _SYMX_NOTE + "; A-H5: symbolic payloads are kept beside the real HDF5 file by a proxy and handed back unchanged; "
         "seam C: instance-level recording wrapper around Workspace.update_attribute",
     ),
@@ -61,7 +63,9 @@ CLAIMED = {
         "workspace.remove_entity / parent.remove_children run symbolically and z3 proves that other holes read back "
         "their old values, the target reads back the new ones, and the invariant (exact tiling, one row per live "
         "data set, no stale/duplicate/negative/wrapped entry) holds again. Shapes (holes, sizes, new length) are "
-        "enumerated within stated bounds.",
+        "enumerated within stated bounds. The same steps also run against the real file (update / remove data / remove "
+        "hole, optionally after a re-open, then re-open and compare every hole), and a drillhole group copied into "
+        "another workspace is edited with source and copy both re-read (no shared state).",
     ),
     "C16": _symx(
         "C16",
@@ -70,7 +74,9 @@ CLAIMED = {
         "bounded symbolic model checking: 2-4 detached inputs with symbolic vertices, arbitrary in-range cell indices "
         "(unreferenced vertices included) and float data on enumerated subsets are merged by the real code; z3 proves "
         "that merged vertices are the inputs' in order, every merged cell connects the same coordinates as its "
-        "input cell, data are concatenated with NaN where lacking, and the inputs are unchanged.",
+        "input cell, data are concatenated with NaN where lacking, and the inputs are unchanged; stored variants re-read "
+        "the merged object from the file; drape models are merged layout-agnostically (ghost prisms between inputs). "
+        "Inputs carry uniquely named data (two data of one name and type on one input are outside the claim).",
     ),
     "C17": _symx(
         "C17",
@@ -81,7 +87,8 @@ CLAIMED = {
         "on symbolic delimiters, cell sizes, origin, rotation and dip and z3 proves, per cell, the format's index "
         "formula and centre position (polynomial identities over uninterpreted cos/sin), the centre count with and "
         "without explicit origin and cache invalidation after geometry setters; Curve parts->cells->parts is "
-        "explored for all labelings of <=6 vertices. Default octree tiling is evaluated concretely per dimension triple.",
+        "explored for all labelings of <=6 vertices, parts after cell removal and Grid2D.vertical with a warm centroid "
+        "cache are included. Default octree tiling is evaluated concretely for all {1,2,4}^3 base shapes.",
     ),
     "C13": _symx(
         "C13",
@@ -92,7 +99,9 @@ CLAIMED = {
         "rotation 0 or an exact rational unit-circle point) the real selection and extent-copy code runs on symbolic "
         "coordinates, in-range cells, data and a symbolic 2-D/3-D box; z3 proves mask == closed-box predicate "
         "(with orphan handling and inverse), None only when allowed, copied vertices/cells/data exactly the "
-        "selection re-indexed onto the same coordinates, and for grids the smallest covering sub-grid with blanking.",
+        "selection re-indexed onto the same coordinates, and for grids the smallest covering sub-grid with blanking. "
+        "Block models (float, integer and boolean children), drillholes (collar box, None when missed) and groups "
+        "(inverse handed to every child, nested groups) are covered by their own scenarios.",
     ),
     "C18": _symx(
         "C18",
@@ -105,7 +114,8 @@ CLAIMED = {
         "continuation beyond the last station, and displacement == depth difference where station directions coincide. "
         "match_values / merge_arrays on unsorted heads; and for depth logs (two logs, any order, collocated or not) and "
         "interval logs (one or two) added to a deviated hole: every vertex sits at desurvey(its depth), every cell joins "
-        "the positions of its from/to depths, each value stays attached to its depth / interval.",
+        "the positions of its from/to depths, each value stays attached to its depth / interval; mixed sequences of up to "
+        "three depth / interval logs in every order, also with tolerance zero.",
     ),
     "C08": _symx(
         "C08",
@@ -130,13 +140,34 @@ CLAIMED = {
         "remove_children_values and NumericData.values setter are explored with symbolic coordinates, cell "
         "indices, data values and removal indices, and z3 proves per path that survivors keep coordinates and "
         "values, cells stay in range and connect the same coordinates, padding/refusal rules hold, and a failed "
-        "call leaves geometry and data consistent. Holds within the bounds only.",
+        "call leaves geometry and data consistent; text, integer and boolean children follow the same survivors; masked "
+        "copies of data; removal on a stored object followed by cache clearing and re-open. Holds within the bounds only.",
         "level_note": "trusted: the symx numpy model (validated on every run by replaying a model of each explored "
         "path on real numpy and comparing outcome, obligations and observed arrays), floats as reals, seam A "
         "(HDF5 write cut by an instance-level no-op), z3",
         "design_ref": "DESIGN.md section 5, C07",
     },
 }
+
+CLAIMED["C12"] = _symx(
+    "C12",
+    "bounded symbolic execution of the real copy chain (ObjectBase/Data/Group.copy -> Workspace.copy_to_parent -> create_entity "
+    "-> H5Writer, proxy over the real HDF5 files) with symbolic geometry, attribute and data values; z3 validity of term-wise "
+    "equality copy == source, source == its own earlier snapshot after the copy was edited, and the same through fresh "
+    "Workspaces; counterexamples replayed on real numpy/h5py",
+    "bounded symbolic model checking, partial (value-level part of the property): one object per class {Points, Curve, Surface, "
+    "Grid2D, BlockModel, Octree, DrapeModel, Drillhole} with symbolic vertices / cells / origin / sizes / rotation / dip / "
+    "delimiters / octree cells / layers / prisms / collar / surveys / cost / end of hole and symbolic float data, plus integer, "
+    "referenced (value map) and text children, a property group and metadata, is copied to the same parent, another group or "
+    "another workspace, with and without children; z3 proves every mapped attribute and array of the copy and of its children "
+    "equal to the source's, property groups listing the copy's own children, the source unchanged (live and re-read) after "
+    "the copy and after the copy was edited, and the edited copy re-read as edited. Data copies (float / integer / referenced) "
+    "and a two-level group subtree likewise. Survey classes and their links (C20), drillhole groups (C04), masked / extent "
+    "copies (C07, C13) are outside this check.",
+    _SYMX_NOTE + "; A-H5: symbolic payloads are kept beside the real HDF5 files by a proxy and handed back unchanged; names, "
+    "flags, metadata, text, value maps and property-group membership are concrete (evaluated directly)",
+)
+CLAIMED["C12"]["design_ref"] = "DESIGN.md section 12.9"
 
 _XH_NOTE = (
     "trusted: CrossHair 0.0.110 (symbolic execution of CPython code with z3) and its models of builtins; the harness "
@@ -160,7 +191,9 @@ CLAIMED["C15"] = _xh(
     "stored value unchanged; a rejected FormParameter member assignment leaves the form unchanged. Values: None, bool, small "
     "ints, strings of length <= 1 (alphabet of 8 values for set-membership conditions). Association and property-group-type "
     "validators: every (referenced parent, value, entity-or-identifier, declared type) combination on a three-level tree is "
-    "one explored path of the real validators.",
+    "one explored path of the real validators; restricted parameters (choice list, object type, type list) keep their "
+    "stored value when a value is refused with any exception (unhashable values, values without default_type_uid); group "
+    "membership is equality of group names, blank names included.",
 )
 CLAIMED["C15"]["engine"] = "xh+symx"
 
@@ -186,7 +219,9 @@ CLAIMED["C06"] = {
     "over all registries of <=3 entries (raise iff live owner, refused insert changes nothing, dead referents never returned); "
     "at workspace level every combination of entity kind, same/free identifier, same/other workspace, occupied identifier, "
     "with data / property group is one explored path of the real code: reuse inside a registry is refused, lookup returns the "
-    "owner, same-workspace copies get fresh identifiers, cross-workspace copies keep free ones, one type per class.",
+    "owner, same-workspace copies get fresh identifiers, cross-workspace copies keep free ones, one type per class; "
+    "data and property-group identifiers (given as UUID or text) reused on the same or another object are refused and "
+    "leave the children unchanged; the file re-opens after a refusal.",
     "level_note": _XH_NOTE + "; the workspace-level part runs the real Workspace on real h5py and only the switches are symbolic",
     "design_ref": "DESIGN.md section 5, C06",
 }
@@ -205,8 +240,6 @@ NOT_APPLICABLE = {
     "C10": "immutability is delivered by h5py's read-only handle and the mode string; quantifier is over programs "
     "(~150 entry points), nothing value-level to solve",
     "C11": "handle lifecycle and exception-abort points of a with-block are h5py/OS behaviour",
-    "C12": "copy fidelity / non-aliasing are object-graph identity questions over ~40 classes and two workspaces; the "
-    "numeric part of masked copies is decided under C07/C13",
     "C19": "single-fault enumeration over links/attributes of real HDF5 files read by h5py: fault injection, nothing symbolic",
     "C20": "partner linkage is identity bookkeeping in metadata dictionaries persisted as JSON; configurations x "
     "histories over an object graph, no value-level kernel",
